@@ -50,6 +50,9 @@ static trl_which_t classify_standard(const vnacal_new_measurement_t *vnmp,
     *unknown_index = -1;
     vnprp_one = _vnacal_get_parameter(vcp, VNACAL_ONE);
     assert(vnprp_one != NULL);
+    if (s[0] == NULL || s[1] == NULL || s[2] == NULL || s[3] == NULL) {
+	return TRL_NONE;	/* not a fully specified two-port standard */
+    }
     if (s[1]->vnpr_parameter == vnprp_one) {
 	if (s[2]->vnpr_parameter == vnprp_one &&
 		s[0] == vnp->vn_zero && s[3] == vnp->vn_zero) {
